@@ -15,7 +15,7 @@ MANIFEST = {
             'argument (numbers, text, numeric text, logical, error, arrays for ranges) in forward and reverse order, and every returned value is compared with '
             'calculate() on a fresh model and with the reference evaluator. Single formulas: every tree with <= 2 operators over 1-3 reference leaves is compiled and '
             'called with the pool product in the order of its inputs mapping and compared with the same formula evaluated with the arguments as cell values. Every function is compiled twice from the same model object and the second one is judged. '
-            'Workbooks with circular references (3 mutually referring cells, each of the 6 edges absent / direct / inside an IF branch; circular handling enabled) are compiled for every single input x output choice and compared with calculate() on a fresh model.',
+            'Workbooks with circular references (3 mutually referring cells, each of the 6 edges absent / direct / inside an IF branch; circular handling enabled) are compiled for every single input x output choice and compared with calculate() on a fresh model. Two workbooks using INDEX/MATCH/VLOOKUP/HLOOKUP/LOOKUP and SUMIF/COUNTIF/UPPER/TEXTJOIN over constant text tables are compiled for every ordered input list x output choice and called with every argument tuple in two passes, against calculate() on a fresh model.',
     'note': 'Trusted: ref/wbeval.py, ref/scalar.py; the fresh-model calculation is an independent second reference. Blank arguments are supplied as cell inputs only.',
 }
 RULE = 'case = (workbook, inputs, outputs); inside a case every argument tuple is called twice; non-trivial = compiled and called; distinct = case key'
@@ -377,11 +377,79 @@ def run_circ(case):
     return result(ex, sorted(oc), fails[:6])
 
 
+# ---- workbooks using lookup / criteria / text functions over constant tables (the table is frozen at compile time and must
+#      come back unchanged on every call): compiled function vs calculate() on a fresh model, every argument tuple, two passes
+def raw_books():
+    P = CIRC_P
+    look = {P + 'A1': 'apple', P + 'A2': 'Bean', P + 'A3': 'cherry', P + 'B1': 10, P + 'B2': 20, P + 'B3': 30,
+            P + 'D1': 2, P + 'K1': 'bean',
+            P + 'E1': '=INDEX(%sA1:A3,%sD1)' % (P, P), P + 'E2': '=MATCH(%sK1,%sA1:A3,0)' % (P, P),
+            P + 'E3': '=VLOOKUP(%sK1,%sA1:B3,2,FALSE)' % (P, P), P + 'E4': '=INDEX(%sA1:A3,%sE2)&"|"&%sA1' % (P, P, P),
+            P + 'E5': '=HLOOKUP(%sD1,{1,2,3;"x","y","z"},2)&LOWER(%sA2)' % (P, P), P + 'E6': '=LOOKUP(%sK1,%sA1:A3,%sB1:B3)' % (P, P, P)}
+    crit = {P + 'A1': 'apple', P + 'A2': 'Bean', P + 'A3': 'apple pie', P + 'B1': 10, P + 'B2': 20, P + 'B3': 30, P + 'K1': 'apple', P + 'D1': 1,
+            P + 'E1': '=SUMIF(%sA1:A3,%sK1,%sB1:B3)' % (P, P, P), P + 'E2': '=COUNTIF(%sA1:A3,%sK1)' % (P, P),
+            P + 'E3': '=UPPER(%sA2)&%sD1' % (P, P), P + 'E4': '=SUMIF(%sB1:B3,">"&%sD1)' % (P, P), P + 'E5': '=COUNTIF(%sA1:A3,"a*")+%sD1' % (P, P),
+            P + 'E6': '=TEXTJOIN("-",TRUE,%sA1:A3)&%sK1' % (P, P)}
+    keys = [('t', 'bean'), ('t', 'CHERRY'), ('t', 'x'), ('t', 'a*'), ('n', 20.0), ('e', '#N/A'), ('t', 'apple')]
+    nums = [('n', 1.0), ('n', 3.0), ('n', 2.0), ('n', 0.0), ('t', 'q'), ('n', 25.0)]
+    return {'lookup': (look, [(P + 'D1', nums), (P + 'K1', keys)], ['E1', 'E2', 'E3', 'E4', 'E5', 'E6']),
+            'criteria': (crit, [(P + 'D1', nums), (P + 'K1', keys)], ['E1', 'E2', 'E3', 'E4', 'E5', 'E6'])}
+
+
+def raw_cases(tier):
+    for name, (d, ins, outs) in raw_books().items():
+        for k in range(1, len(ins) + 1):
+            for sel in itertools.permutations(range(len(ins)), k):
+                for oc in [[o] for o in outs] + [outs, outs[::-1]]:
+                    yield ['raw', name, list(sel), oc]
+
+
+def run_raw(case):
+    _, name, sel, outs = case
+    import formulas, numpy as np
+    from xl.evalcell import classify, to_scalar, exc_name
+    P = CIRC_P
+    d, ins, _ = raw_books()[name]
+    ins = [ins[i] for i in sel]
+    fails, oc, ex = [], set(), 0
+    desc = dict(wb=name, inputs=','.join(i for i, _ in ins), outputs=','.join(outs), raw=True)
+    try:
+        model = formulas.ExcelModel().from_dict(dict(d))
+        fresh = formulas.ExcelModel().from_dict(dict(d))
+        func = model.compile([i for i, _ in ins], [P + o for o in outs])
+    except Exception as e:
+        return result(1, ['compile-escape'], [Fail('compile-escape', got='%s:%s' % (exc_name(e), str(e)[:80]), exp='a function', **desc)])
+    val = lambda r: classify(np.asarray(getattr(r, 'value', r), object).ravel()[0])
+    tuples = list(itertools.product(*[p for _, p in ins]))
+    for rnd, order in enumerate((tuples, tuples[::-1])):
+        for args in order:
+            ex += 1
+            try:
+                res = func(*[to_scalar(a) for a in args])
+                res = res if isinstance(res, (list, tuple)) and len(outs) > 1 else [res]
+                got = [val(r) for r in res]
+            except Exception as e:
+                fails.append(Fail('call-escape', got='%s:%s' % (exc_name(e), str(e)[:80]), exp='values', args=str(args), **desc))
+                continue
+            sol = fresh.calculate({i: to_scalar(a) for (i, _), a in zip(ins, args)})
+            exp = [val(sol[P + o]) for o in outs]
+            for o, g, e in zip(outs, got, exp):
+                oc.add('raw:' + (g[1] if g[0] == 'e' else g[0]))
+                if not (g == e or close(g, e, 1e-12)):
+                    fails.append(Fail('differs-from-calculate', got='%s=%s' % (o, g), exp='%s=%s' % (o, e), args=str(args), call=rnd * len(tuples) + order.index(args), **desc))
+                    break
+        if len(fails) > 6:
+            break
+    return result(ex, sorted(oc), fails[:6])
+
+
 def run_case(case):
     if case[0] == 'folded':
         return run_folded(case)
     if case[0] == 'circ':
         return run_circ(case)
+    if case[0] == 'raw':
+        return run_raw(case)
     return run_wb(case) if case[0] == 'wb' else run_formula(case)
 
 
@@ -390,4 +458,5 @@ def run(ctx):
     ctx.explore(run_case, formula_cases(ctx.tier), chunksize=4, label='single_formulas')
     ctx.explore(run_case, folded_cases(ctx.tier), chunksize=1, label='compile_time_folded_references')
     ctx.explore(run_case, circ_cases(ctx.tier), chunksize=2, label='circular_workbooks')
+    ctx.explore(run_case, raw_cases(ctx.tier), chunksize=2, label='lookup_and_criteria_workbooks')
     return {}
